@@ -136,13 +136,29 @@ pub fn check_b127_arith(c: &B127Case) -> Outcome {
     let zinv = bf::inv127(2);
     chk("div_z", guard(|| if f & 1 == 0 { a.div_z() } else { let mut r = a; r.set_div_z(); r }), bf::mul127(ma, zinv));
     chk("div_z2", guard(|| if f & 1 == 0 { a.div_z2() } else { let mut r = a; r.set_div_z2(); r }), bf::mul127(ma, bf::mul127(zinv, zinv)));
-    let k = (c.n as usize) % 127;
-    chk("set_bit", guard(|| { let mut r = a; r.set_bit(k, (f as u32) | 2); r }), (bf::red127(ma) & !(1u128 << k)) | (((f & 1) as u128) << k));
-    chk("xor_bit", guard(|| { let mut r = a; r.xor_bit(k, (f as u32) | 4); r }), bf::red127(ma) ^ (((f & 1) as u128) << k));
+    // bit access (indices 0..=126 as documented): the generated index and the positions that the reduction z^127 = z^63 + 1
+    // touches, on the constructed value and on a computed one (whose internal representation may be unreduced)
+    let prod = guard(|| a * b);
+    let mprod = bf::mul127(ma, mb);
+    for k in [(c.n as usize) % 127, 0, 63, 64, 126] {
+        chk("set_bit", guard(|| { let mut r = a; r.set_bit(k, (f as u32) | 2); r }), (bf::red127(ma) & !(1u128 << k)) | (((f & 1) as u128) << k));
+        chk("xor_bit", guard(|| { let mut r = a; r.xor_bit(k, (f as u32) | 4); r }), bf::red127(ma) ^ (((f & 1) as u128) << k));
+        if let Ok(p) = &prod {
+            let p = *p;
+            chk("set_bit", guard(|| { let mut r = p; r.set_bit(k, (f as u32) | 2); r }), (mprod & !(1u128 << k)) | (((f & 1) as u128) << k));
+            chk("xor_bit", guard(|| { let mut r = p; r.xor_bit(k, (f as u32) | 4); r }), mprod ^ (((f & 1) as u128) << k));
+        }
+    }
     drop(chk);
-    // bit access (indices 0..=126 as documented)
-    let gb = guard(|| a.get_bit(k));
-    acc.check(gb.as_ref().ok() == Some(&(((bf::red127(ma) >> k) & 1) as u32)), || "C01:GFb127:get_bit".into(), || format!("get_bit({k}) = {:?}", gb));
+    for k in [(c.n as usize) % 127, 0, 63, 64, 126] {
+        let gb = guard(|| a.get_bit(k));
+        acc.check(gb.as_ref().ok() == Some(&(((bf::red127(ma) >> k) & 1) as u32)), || "C01:GFb127:get_bit".into(), || format!("get_bit({k}) = {:?}", gb));
+        if let Ok(p) = &prod {
+            let p = *p;
+            let gb = guard(|| p.get_bit(k));
+            acc.check(gb.as_ref().ok() == Some(&(((mprod >> k) & 1) as u32)), || "C01:GFb127:get_bit".into(), || format!("get_bit({k}) of a product = {:?}", gb));
+        }
+    }
     acc.done()
 }
 
